@@ -592,6 +592,18 @@ where
         }
     }
     out.push(format!("k{}", hex_str(&keys.join(","))));
+    // the same through serde_json::Value (a map, which hands the keys over in alphabetical instead of declaration order)
+    let z: Result<D, _> = serde_json::to_value(&x).and_then(serde_json::from_value);
+    let same = match z {
+        Ok(z) => {
+            let (mut a, mut b) = (vec![], vec![]);
+            x.wr(&mut a);
+            z.wr(&mut b);
+            a == b
+        }
+        Err(_) => false,
+    };
+    out.push(if same { "v1".into() } else { "v0".into() });
     out
 }
 
